@@ -333,6 +333,10 @@ def gen_specs(tier, seed):
         specs.append(Spec('struct', None, [dict(kind='tuple', vname=None, nf=None, fields=[])]))
         specs.append(Spec('struct', 'Rn', [dict(kind='named', vname=None, nf=None, fields=[])], False))
         specs.append(Spec('enum', True, [dict(kind='tuple', vname=None, nf=None, fields=[]), dict(kind='named', vname='Rv', nf=None, fields=[]), dict(kind='named', vname=None, nf=False, fields=['i'])]))
+        # runs of adjacent ignored fields before / between shown ones
+        specs.append(Spec('enum', None, [dict(kind='tuple', vname=None, nf=None, fields=['i', 'i', 'p']), dict(kind='named', vname=None, nf=None, fields=['p', 'i', 'i', 'm'])]))
+        specs.append(Spec('struct', None, [dict(kind='tuple', vname=None, nf=None, fields=['p', 'i', 'i', 'p'])], True))
+        specs.append(Spec('enum', True, [dict(kind='tuple', vname=None, nf=True, fields=['i', 'i', 'i', 'p']), dict(kind='named', vname=None, nf=False, fields=['i', 'i', 'l'])]))
         # wide shapes: 13 fields (positions >= 10 sort before 2 as strings; the field names are not in alphabetical order)
         specs.append(Spec('struct', None, [dict(kind='tuple', vname=None, nf=None, fields=['p'] * S.WIDE)]))
         specs.append(Spec('struct', None, [dict(kind='tuple', vname=None, nf=None, fields=['p', 'i'] * 6 + ['p'])], True))
